@@ -235,6 +235,10 @@ def _fns(mod, pat):
 C04_WORDS = _fns("c04.rs", r"\b(c04_words_\w+):")
 C04_TABLES = ["c04_table_struct_mutants", "c04_table_layout_mutants", "c04_table_generic_mutants", "c04_table_enum_mutants", "c04_table_interchangeable"]
 C04_CROSS = _fns("c04.rs", r"\b(c04_cross_\w+):")
+# exceed 24 GB (Option<u8>: 63-byte stream with long type names, as in C10; the two enum pairs likewise): not run, listed under outside
+C04_HEAVY = {"c04_words_optu8_eps", "c04_words_optu8_full", "c04_cross_enum_order_full", "c04_cross_enum_rename_eps"}
+C04_WORDS = [n for n in C04_WORDS if n not in C04_HEAVY]
+C04_CROSS = [n for n in C04_CROSS if n not in C04_HEAVY]
 PLAN["C04"] = dict(
     quick=lambda seed: [dict(harnesses=names("c04", C04_WORDS[:4], bound="all 2^128 values of the stored type/alignment digest words", what="hash errors by priority, never a value unless both words are the reader's")
                              + names("c04", C04_TABLES, bound="no symbolic input: digests evaluated through the real TypeHash/AlignHash impls with the real xxh3", what="pairwise distinct where the structure differs; equal for the interchangeable trio", covers="none")
@@ -246,7 +250,8 @@ PLAN["C04"] = dict(
                                 + names("c04", C04_CROSS, bound="value of T symbolic, read as near-miss U", what="refused with the expected hash error", covers="none")
                                 + [twin("c04::c04_twin_reach")], timeout=3600)],
     bounds={"stored_digests": "all 2^128 values (solver)", "tables": "universe (106 cases) + 23 near-miss mutants (harness/src/mutants.rs): evaluated, 0 solver variables"},
-    outside=["collisions of xxh3 itself", "types and mutants outside the listed universe", "reader types whose stream exceeds 64 bytes for the end-to-end pairs"],
+    outside=["collisions of xxh3 itself", "types and mutants outside the listed universe", "reader types whose stream exceeds 64 bytes for the end-to-end pairs",
+             "end-to-end hash-word harnesses for Option<u8> and the two enum near-miss pairs (reordered / renamed variant): CBMC exceeds 24 GB; their digests are still compared in the tables"],
     stubs=["Sink", "Exact", "Al", "core::str::from_utf8 -> env::from_utf8_stub"], assumptions=["the digest-table half is enumeration over a finite universe evaluated inside the model checker; the solver adds nothing there"])
 
 # ---- C06 ---------------------------------------------------------------------------------
@@ -328,7 +333,7 @@ FS_STUBS = ["anyhow blanket From<E> -> harness stub (consumes the error, returns
             "<File as Read>::read -> copies from the in-memory file image, whole request", "<File as Write>::write/flush -> appends to an in-memory output buffer",
             "<OwnedFd as Drop>::drop -> no-op", "std::backtrace::Backtrace::capture -> Backtrace::disabled()",
             "std::alloc::alloc -> alloc_zeroed + fill 0xAA + record (ptr, size, align)", "core::str::from_utf8 -> env::from_utf8_stub"]
-C08_MEM = ["c08_load_mem_u32", "c08_load_mem_u32_trail5", "c08_load_mem_tup2", "c08_load_mem_zeros", "c08_load_mem_arru32x1", "c08_load_mem_u64_trail20", "c08_overaligned_refused"]
+C08_MEM = ["c08_load_mem_u32", "c08_load_mem_u32_trail5", "c08_load_mem_tup2", "c08_load_mem_zeros", "c08_load_mem_arru32x1", "c08_load_mem_u64_trail8", "c08_overaligned_refused"]
 C08_REST = ["c08_load_full_u32", "c08_load_full_tup2", "c08_store_u32", "c08_store_tup2"]
 PLAN["C08"] = dict(
     quick=lambda seed: [dict(cfg="nommap", harnesses=names("c08", C08_MEM[:4] + C08_REST[:1] + C08_REST[2:3] + ["c08_overaligned_refused"], bound="file = real serialization of a symbolic value (+ trailing bytes); fs stubs", what="load_mem/load_full/store vs the serialized bytes; region aligned, rounded, zero tail, borrows inside, move/box", covers="none")
@@ -378,7 +383,8 @@ def c11_jobs(tier):
     hs += [H("c11::" + n, bound="every cut point k < len (symbolic), values symbolic", what="never a value; only bounds-check panics tolerated", allow=C11_ALLOW, covers="none") for n in eps + [h for h in hdr if "_eps_" in h]]
     hs += [H("c11::" + n, bound="exact-size heap copy of the prefix (K bytes): any read outside it is a pointer-check failure", what="never a value, no out-of-object access", allow=C11_ALLOW, covers="none") for n in ex]
     hs += [twin("c11::c11_twin_reach")]
-    return [dict(harnesses=hs, timeout=900 if q else 2400)]
+    # the header-cut harnesses peaked between 6 and 13 GB in different builds of the same source: generous cap, fewer parallel jobs
+    return [dict(harnesses=hs, timeout=900 if q else 2400, mem_gb=24, jobs=10)]
 
 
 PLAN["C11"] = dict(quick=lambda seed: c11_jobs("quick"), thorough=lambda seed: c11_jobs("thorough"),
@@ -388,6 +394,8 @@ PLAN["C11"] = dict(quick=lambda seed: c11_jobs("quick"), thorough=lambda seed: c
 
 C14_FAIL = _fns("c14.rs", r"\b(c14_fail_\w+):")
 C14_CALL = _fns("c14_calls.rs", r"\b(c14_call_\w+):")
+# failure at the very first request of Vec<Vec<u16>>: > 24 GB (fact 15: the whole Ok-continuation is walked); J >= 1 are run
+C14_CALL = [c for c in C14_CALL if c != "c14_call_vecvec_j0"]
 PLAN["C14"] = dict(
     quick=lambda seed: [dict(harnesses=names("c14", C14_FAIL[:9], bound="failure position k in 0..=len (symbolic), values symbolic", what="(A) value == original iff no failure, else ReadError; partial values dropped soundly")
                              + names("c14", [c for c in C14_CALL if c.endswith(("_j1", "_j4", "_j10"))], bound="reader fails at its J-th read_exact call (instance constant); values symbolic", what="(A') deep types: value iff no failure, else ReadError; partial values dropped soundly", covers="none")
@@ -396,7 +404,7 @@ PLAN["C14"] = dict(
     thorough=lambda seed: [dict(harnesses=names("c14", C14_FAIL, bound="failure position symbolic", what="(A)") + names("c14", C14_CALL, bound="reader fails at its J-th call, every J", what="(A') deep types", covers="none") + names("c14", ["c14_std_read_exact_4", "c14_std_read_exact_8", "c14_chunky_u32", "c14_chunky_optu8"], bound="<= 6 read calls", what="(B)/(C)")
                                 + [twin("c14::c14_twin_reach")], timeout=2400)],
     bounds=dict(RT_BOUNDS, fail_at="every k in 0..=len", fragmentation="requests <= 8 bytes, <= 6 read calls per harness"),
-    outside=COMMON_OUTSIDE + ["reader failure inside Vec<String>, Box<[String]>, [String;2], Vec<DeepS<_>> (DESIGN.md fact 15); [Vec<u16>;2] and Vec<Vec<u16>> stand in for deep items with drop glue", "fragmentation of long streams in one query (decomposed at the ReadNoStd trait boundary: (A)+(B) compose because the deserializers call the reader only through read_exact - an argument, not a solver result)", "[T;N] deep arrays leak already-built items on mid-array failure (leak, not corruption)"],
+    outside=COMMON_OUTSIDE + ["reader failure inside Vec<String>, Box<[String]>, [String;2], Vec<DeepS<_>> and at the very first request of Vec<Vec<u16>> (DESIGN.md fact 15; the first-request failure is covered for flat types by the symbolic position); [Vec<u16>;2] and Vec<Vec<u16>> stand in for deep items with drop glue", "fragmentation of long streams in one query (decomposed at the ReadNoStd trait boundary: (A)+(B) compose because the deserializers call the reader only through read_exact - an argument, not a solver result)", "[T;N] deep arrays leak already-built items on mid-array failure (leak, not corruption)"],
     stubs=RT_STUBS + ["Exact::failing: ReadNoStd failing at a symbolic position", "Chunky: io::Read with symbolic chunk sizes / Interrupted / early EOF"], assumptions=[])
 
 # ---- C17 / C18 -------------------------------------------------------------------------------
